@@ -59,6 +59,11 @@ structure Cfg where
   diffCache : Bool
   /-- `settings.call_signatures_validity`, in clock ticks -/
   validity : Nat
+  /-- where `Script.__init__` takes `self._module_node` from: `0` = from parso on every construction
+  (one unconditional `parse_and_get_code` call); `n > 0` = a process-wide table of the module nodes
+  of the last `n` (path, text) states of buffers with a path is consulted first and parso is not
+  asked on a hit (an "undo/redo" memo of node *objects*) -/
+  treeMemo : Nat := 0
 deriving DecidableEq, Repr
 
 /-- `_NodeCacheItem` -/
@@ -87,6 +92,8 @@ structure State (L T K V : Type) where
   sig : AMap (Option String × Option Nat × Nat) (Nat × V) := [] -- `_time_caches['call_signatures_validity']`:
                                                     -- (module_path, before_bracket, bracket position)
   cur : Option Script := none
+  recent : AMap (String × L) Nat := []              -- remembered module nodes (only if `treeMemo > 0`),
+                                                    -- newest first: (path, text) ↦ node identity
 
 inductive Op (L K : Type)
   /-- `Script(text, path=key)`; `ptime` = mtime of `path` on disk (`none`: no such file) -/
@@ -142,9 +149,31 @@ def parseBuffer (st : State L T K V) (key : Option String) (text : L) (ptime : O
       let st1 := { st with nextObj := o + 1, heap := st.heap.set o (parse text) }
       (o, if cfg.scriptCache || cfg.diffCache then save st1 key o text ptime else st1)
 
+/-- the remembered module node `Script.__init__` would use instead of asking parso -/
+def remembered (st : State L T K V) (key : Option String) (text : L) : Option Nat :=
+  match key with
+  | none => none                              -- a path-less buffer has no identity
+  | some p => if cfg.treeMemo = 0 then none else st.recent.get? (p, text)
+
+/-- how `Script.__init__` gets `self._module_node`: a remembered node object (parso is not asked;
+whatever the diff parser has done to that object in the meantime is what the Script sees), else
+the parse; with a table, the parsed node object is remembered under (path, text) and the oldest
+entry makes room -/
+def obtainTree (st : State L T K V) (key : Option String) (text : L) (ptime : Option Nat) :
+    Nat × State L T K V :=
+  match remembered cfg st key text with
+  | some o => (o, st)
+  | none =>
+    let (o, st1) := parseBuffer cfg parse st key text ptime
+    match key with
+    | none => (o, st1)
+    | some p =>
+      if cfg.treeMemo = 0 then (o, st1)
+      else (o, { st1 with recent := AMap.set (st1.recent.take (cfg.treeMemo - 1)) (p, text) o })
+
 def script (st : State L T K V) (key : Option String) (text : L) (ptime : Option Nat) :
     State L T K V :=
-  let (o, st1) := parseBuffer cfg parse st key text ptime
+  let (o, st1) := obtainTree cfg parse st key text ptime
   let st2 := expire st1
   { st2 with cur := some { key := key, obj := o },
              memo := if cfg.memoPerScript then [] else st2.memo }
